@@ -873,6 +873,7 @@ _r5 = {
     "C13": "; SQLite commit gate: CommitFunc over arbitrary foreign_key_check answers before and at commit (0..2 rows each; table letter in {a,b}, row id in 0..1 symbolic)",
     "C14": "; the gate family uses fully symbolic 2-byte table names and also asks Driver.Snapshot",
     "C15": "; the expression part of the document-level index has a symbolic direction; SQLite document families: symbolic nullability of the primary-key column",
+    "C16": "; the second schema of a two-schema change set is named \"w\"+name or by any other 2 symbolic bytes over {x..z, X..Z} (case-only differences included)",
     "C17": "; sequence family (MySQL, PostgreSQL): one ModifyTable with an ordered pair out of 9 sub-changes (add/drop column, unnamed/named check, drop check, add foreign key, modify column, add/drop index); multi family (three dialects): two top-level changes in either order out of {add table, drop table t1, drop table t0, modify table}",
     "C18": "; window family: two new files (with or without a base file), the second drops a table created by the base or by the first; rebuild families: first letter of each table name symbolic over {t, n, e, w, _}",
     "C06": "; two files whose first has 0..3 fully symbolic bytes in either directory (lens2)",
